@@ -142,7 +142,7 @@ def run(chk):
     ops, what = [], []
     for name, f in list(F.depth_families().items()) + list(F.cycle_families().items()):
         for k in ([10, 49, 50, 51, 60] if name in F.depth_families() else [1, 2, 3, 4]):
-            if k > SMALL_ONLY.get(name, 10 ** 9):
+            if k > SMALL_ONLY.get(name, 10 ** 9) or attribute(known, name, k, "") is not None:
                 continue
             ops.append(fw.asm_op([("main.asm", f(k))]))
             what.append((name, k))
